@@ -112,6 +112,7 @@ type Interp struct {
 	extra   map[string]interface{}
 	replaced map[string]Value
 	curModel *Model
+	tolerantInit *ssa.Function
 	speculating bool
 }
 
@@ -519,13 +520,30 @@ func (in *Interp) ensureInit(pkg *ssa.Package) {
 			}
 		}
 	}
-	if in.eng.initAllowed(pkg) {
-		initFn := pkg.Func("init")
-		if initFn != nil && initFn.Blocks != nil {
-			saveStack := in.stack
+	initFn := pkg.Func("init")
+	if initFn != nil && initFn.Blocks != nil && !in.eng.initSkipped(pkg) {
+		saveStack := in.stack
+		if in.eng.initAllowed(pkg) {
 			in.callSSA(nil, token.NoPos, initFn, nil, nil)
-			in.stack = saveStack
+		} else {
+			// other packages: evaluate the package-level initialisers, tolerating calls
+			// the engine has no model for (reflection-based registration and the like)
+			in.tolerantInit = initFn
+			func() {
+				defer func() {
+					if r := recover(); r != nil {
+						switch r.(type) {
+						case engineError, targetPanic, pathLimit:
+						default:
+							panic(r)
+						}
+					}
+				}()
+				in.callSSA(nil, token.NoPos, initFn, nil, nil)
+			}()
+			in.tolerantInit = nil
 		}
+		in.stack = saveStack
 	}
 	in.inited[pkg] = true
 	delete(in.initing, pkg)
@@ -560,7 +578,7 @@ type nativeFunc struct {
 }
 
 func (in *Interp) goPanic(msg string) {
-	panic(targetPanic{v: Iface{t: types.Typ[types.String], v: Str{s: msg}}, msg: msg})
+	panic(targetPanic{v: Iface{t: types.Typ[types.String], v: Str{s: msg}}, msg: msg, stack: in.stackTrace()})
 }
 
 func (in *Interp) callSSA(caller *frame, callpos token.Pos, fn *ssa.Function, args []Value, env []Value) Value {
@@ -744,6 +762,10 @@ func (in *Interp) visitInstr(fr *frame, instr ssa.Instruction) continuation {
 		fr.env[instr] = in.binop(instr.Op, instr.X.Type(), fr.get(instr.X), fr.get(instr.Y))
 	case *ssa.Call:
 		fn, args := in.prepareCall(fr, &instr.Call)
+		if in.tolerantInit != nil && fr.fn == in.tolerantInit {
+			fr.env[instr] = in.tolerantCall(fr, instr, fn, args)
+			break
+		}
 		fr.env[instr] = in.call(fr, instr.Pos(), fn, args)
 	case *ssa.ChangeInterface:
 		fr.env[instr] = fr.get(instr.X)
@@ -790,7 +812,7 @@ func (in *Interp) visitInstr(fr *frame, instr ssa.Instruction) continuation {
 		fr.runDefers()
 	case *ssa.Panic:
 		v := fr.get(instr.X)
-		panic(targetPanic{v: v, msg: in.panicMsg(v)})
+		panic(targetPanic{v: v, msg: in.panicMsg(v), stack: in.stackTrace()})
 	case *ssa.Send:
 		in.chanSend(fr.get(instr.Chan).(*Chan), copyVal(fr.get(instr.X)))
 	case *ssa.Store:
@@ -1311,4 +1333,30 @@ func (in *Interp) findMethod(t types.Type, pkg *types.Package, name string) *ssa
 		return nil
 	}
 	return in.prog.MethodValue(sel)
+}
+
+// tolerantCall runs a call made directly by a tolerated package initialiser; if the
+// callee cannot be interpreted the call yields zero values.
+func (in *Interp) tolerantCall(fr *frame, instr *ssa.Call, fn Value, args []Value) (res Value) {
+	depth := len(in.stack)
+	saved := in.tolerantInit
+	in.tolerantInit = nil
+	defer func() {
+		in.tolerantInit = saved
+		if r := recover(); r != nil {
+			switch r.(type) {
+			case engineError, targetPanic:
+				in.stack = in.stack[:depth]
+				rs := instr.Call.Signature().Results()
+				if rs.Len() == 0 {
+					res = nil
+				} else {
+					res = in.zero(rs)
+				}
+			default:
+				panic(r)
+			}
+		}
+	}()
+	return in.call(fr, instr.Pos(), fn, args)
 }
